@@ -150,6 +150,9 @@ var lintSites = []struct {
 	{"matrix-include-array", "on: push\njobs:\n  j:\n    runs-on: ubuntu-latest\n    strategy:\n      matrix:\n        a: [1]\n        include:\n          - b:\n              - ${{", "\n              - y\n    steps:\n      - run: echo\n", 10, 17},
 	{"closing-braces-before", "on: push\njobs:\n  j:\n    runs-on: ubuntu-latest\n    steps:\n      - run: echo\n        env:\n          X: a }} b ${{", "\n", 8, 21},
 	{"with-input", "on: push\njobs:\n  j:\n    runs-on: ubuntu-latest\n    steps:\n      - uses: actions/checkout@v4\n        with:\n          ref: ${{", "\n", 8, 16},
+	// `args` / `entrypoint` of a step that does not run a Docker image
+	{"with-args-of-repo-action", "on: push\njobs:\n  j:\n    runs-on: ubuntu-latest\n    steps:\n      - uses: golangci/golangci-lint-action@v6\n        with:\n          args: ${{", "\n", 8, 17},
+	{"with-entrypoint-of-local-action", "on: push\njobs:\n  j:\n    runs-on: ubuntu-latest\n    steps:\n      - uses: ./no/such/action\n        with:\n          entrypoint: ${{", "\n", 8, 23},
 	// a strategy section without a matrix
 	{"fail-fast-no-matrix", "on: push\njobs:\n  j:\n    runs-on: ubuntu-latest\n    strategy:\n      fail-fast: ${{", "\n    steps:\n      - run: echo\n", 6, 18},
 	{"max-parallel-no-matrix", "on: push\njobs:\n  j:\n    runs-on: ubuntu-latest\n    strategy:\n      max-parallel: ${{", "\n    steps:\n      - run: echo\n", 6, 21},
